@@ -52,7 +52,7 @@ PROPS["C02"] = dict(
                "StatusStringMapping[c] is the table entry (A-status-table); etag/httpdate uninterpreted (A-sha-1, A-fmt-1); "
                "random boundary alphabet (A-random); run_in_threadpool(f,*a) == f(*a) (A-conc-1); fold extensionality "
                "(A-fold-ext); await erased (no interleaving); closing of the file object by `with` is not modelled (WSGI). "
-               "The two tiny event builders send_http_start/send_http_body and the exception constructors are executed inline.",
+               "The two tiny event builders send_http_start/send_http_body and the exception constructors are executed inline. HEAD never has a body, also on the 400 / 416 answers (clause strengthened after fix 9e1100a).",
     technique="deductive verification: contracts + ghost emission trace on the real handlers, loop invariants, SMT (z3/cvc5)",
     explanation="",
 )
@@ -130,7 +130,7 @@ PROPS["C09"] = dict(
     level_note="Trusted: compiled-pattern fullmatch is language membership (A-re-2, uninterpreted); the server's send / "
                "start_response do not raise (A-server); sub-applications are opaque (their call is observed, their behaviour is "
                "not constrained); `*routes` modelled as the list of its elements; lifespan scopes excluded (documented "
-               "RuntimeError).",
+               "RuntimeError). WSGI: PATH_INFO is the Latin-1 reading of the path bytes; matching is on its UTF-8 reading and what is written back is converted back (A-transcode: wsgi_enc(wsgi_dec(x)) == x, wsgi_enc is a homomorphism for concatenation, ASCII is fixed - used as ground instances; the codec calls themselves are exercised by the bounded layer with non-ASCII prefixes).",
     technique="deductive verification: first-match loop invariants, string lemma for the path rewrite, ghost call recorder, SMT (z3/cvc5)",
     explanation="",
 )
@@ -268,7 +268,7 @@ PROPS["C10"] = dict(
     level_note="Trusted: an instance-dict entry shadows the non-data descriptor, so the wrapped function runs once per instance "
                "(A-py-1); the server script is http.request* then optionally http.disconnect (A-server); wsgi.input.read "
                "returns b'' only at the end (A-wsgi-1); ensure_future wraps without running (A-conc-1). Arbitrary "
-               "interleavings beyond the atomicity argument (e.g. is_disconnected() racing a reader) are not covered.",
+               "interleavings beyond the atomicity argument (e.g. is_disconnected() racing a reader) are not covered. Known finding (open): the WSGI side returns a body that is shorter than CONTENT_LENGTH without any error (it has no disconnect error).",
     technique="deductive verification: contracts with ghost server script and loop invariants on the real stream()/cached_property, AST atomicity lemmas, SMT; bounded reference automaton for access sequences",
     explanation="proved: cached_property.__get__, atomicity side conditions, ASGI and WSGI Request.stream; bounded: body/json/form/"
                 "close sequences, cached identity, concurrent awaits.",
@@ -385,7 +385,7 @@ PROPS["C18"] = dict(
                "contract: _replace is a field-wise copy, geturl an uninterpreted function of the five fields (A-urlsplit-2), "
                "and username/password are tied to netloc by the input invariant 'the text before the last @ is user[:password]' "
                "(A-urlsplit, stated as precondition); that urlsplit parses the re-assembled authority back into the same "
-               "components is stdlib behaviour, checked bounded only (A-url-1); the server's environ<->scope mapping (A-wsgi-2).",
+               "components is stdlib behaviour, checked bounded only (A-url-1); the server's environ<->scope mapping (A-wsgi-2). Known findings (open): a decoded path containing '?' or '#' is pasted into the URL text unquoted; replace() splices user names / passwords containing URL delimiters in unquoted.",
     technique="deductive verification: exact string contracts of the URL builder and of component-wise replace over all branch combinations, SMT strings (z3/cvc5 raced); bounded grid for construction parity and urlsplit round trips",
     explanation="proved: _build_url string construction, replace re-assembly of the authority; bounded: environ/scope parity, urlsplit round trip of replace, query helpers, repr masking.",
 )
